@@ -205,13 +205,15 @@ CHECKS = {
         level="fault_enumeration",
         groups=[G("^TestC11_Shutdown$", 300, 30000, shrinktime="10s")],
         rule="real ServeConn(SSession(SFileSys(mockfs))) with a raw reference-codec client. A fixed prefix binds fids, then 1..6 requests of generated kinds "
-             "(walk, clone, attach, open, opendir, create, read, write, stat, wstat, clunk, remove) are in flight: parked inside the mock file system holding their fid locks "
-             "(returning when their context is cancelled, or only after Stop has been entered), or completing normally in a burst at that instant; optionally the client has "
+             "(walk, walk in place, clone, attach, open, opendir, create, read, write, stat, wstat, clunk, remove) are in flight: parked inside the mock file system holding their fid locks "
+             "(returning when their context is cancelled, or only after Stop has been entered; a quarter of them then fail with the context's error, as a cancelled file system does, "
+             "and for a walk in place only the session's Clunk of the old entry may fail), or completing normally in a burst at that instant; read/write/stat/wstat requests may share one "
+             "open fid (queueing behind its lock), and a third of those have a slow handler goroutine that reaches the session only while Stop is inside that fid's Clunk; optionally the client has "
              "stopped reading replies. Then one fault: read error after 0..30 bytes of a further frame, write error after 0..30 further output bytes (or under a blocked write), "
              "peer close, or context cancel. Oracle: ServeConn returns within 10 s; the context of every parked handler is cancelled; handlers return; Stop ran exactly once; "
              "afterwards the fid table (verif hook) has nothing bound or locked and every entry the mock handed out has exactly one release; a crash of the process is reported "
              "through the journal. Non-trivial = at least one handler in flight at the fault; distinct by hash of the scenario.",
-        require_classes=dict(quick=["fault_readerr", "fault_writeerr", "fault_peerclose", "fault_cancel", "client_not_reading", "duptag_in_flight"] + ["inflight_" + k for k in "walk clone attach open opendir create read write stat wstat clunk remove".split()],
+        require_classes=dict(quick=["fault_readerr", "fault_writeerr", "fault_peerclose", "fault_cancel", "client_not_reading", "duptag_in_flight", "fs_call_fails_when_cancelled", "inflight_on_shared_open_fid", "slow_handler_meets_stop", "inflight_walkinplace"] + ["inflight_" + k for k in "walk clone attach open opendir create read write stat wstat clunk remove".split()],
                              thorough=[f + "×" + k for f in ("readerr", "writeerr", "peerclose", "cancel") for k in "walk clone attach open opendir create read write stat wstat clunk remove".split()]),
         assumptions=["handlers return once cancelled (the property's proviso): parked file-system calls return when their context is done, some only after Stop was entered",
                      "'within bounded time' is tested as 10 s (normal: well under a millisecond); the library's own 30 s I/O deadline never comes into play on these connections",
